@@ -1,4 +1,5 @@
 //! C06 configuration check, second configuration: the crate with feature `std` enabled.
+//! (Nothing here may depend on iteration order: no property fixes it.)
 use micromap::{Map, Set};
 fn main() {
     let mut m: Map<String, u32, 4> = Map::new();
@@ -6,6 +7,11 @@ fn main() {
     m.insert("b".into(), 2);
     let s: Set<u8, 4> = [1, 2, 3].into_iter().collect();
     assert_eq!(m.len() + s.len(), 5);
-    assert_eq!(format!("{m} {s}"), "{a: 1, b: 2} {1, 2, 3}");
+    let shown = format!("{m}");
+    assert!(shown == "{a: 1, b: 2}" || shown == "{b: 2, a: 1}", "unexpected Display: {shown}");
+    let mut elems: Vec<u8> = s.iter().copied().collect();
+    elems.sort_unstable();
+    assert_eq!(elems, [1, 2, 3]);
+    assert_eq!(format!("{s}").len(), "{1, 2, 3}".len());
     println!("ok");
 }
